@@ -6,6 +6,7 @@ from .model import AnalysisError, NotConst, fold, node_src, is_self_attr, call_n
 from .paths import Interp, Domain, Env, TOP, NONE, Const, TupleV, Exc, ORD, fmt_trace, Opaque, Ctx
 from .report import walk_no_nested
 from . import wire, spec, exchange
+from . import report as report_mod
 from .colls import ExactCollections, GenV, DictV, deref, new_object
 
 LEVEL = "other"
@@ -454,6 +455,10 @@ def run(chk):
     from .rules_C04 import prefix_symmetry
 
     prefix_symmetry(prog, r2)
+    # a command the server cannot parse reports nothing: every command sent follows the protocol grammar (C02.R1)
+    from . import rules_C02
+
+    report_mod.include_rules(chk, r2, rules_C02, ("C02.R1",), "the command that is sent is one the server understands as the documented verb with its arguments in the protocol's order")
 
     # ------------------------------------------------------------------ R3 reply -> return decision tables
     r3 = chk.rule("C05.R3", "reply -> return value decision tables: delete, touch, flush_all, incr, decr, version over each verb's reply alphabet; the storage family and the retrieval family evaluated end to end through their exchanges")
